@@ -22,6 +22,8 @@ fn main() {
     }
     let checks = checks::all();
     match args[1].as_str() {
+        "c07-child" => std::process::exit(checks::c07::child_main(&args[2..])),
+        "c07-one" => std::process::exit(checks::c07::one_main(&args[2..])),
         "list" => {
             for c in &checks {
                 println!("{} {}", c.id(), c.title());
